@@ -22,13 +22,13 @@ def verdictOut (s : St) : Op → List Obs
 
 theorem step_log (s : St) (op : Op) :
     (step s op).log = s.log ++ verdictOut s op ++ [snap (step s op)] := by
-  obtain ⟨um, inst, alive, hdrName, file, log⟩ := s
-  cases op <;> cases alive <;> simp [step, verdictOut, snap, writeFile]
+  obtain ⟨um, inst, alive, hdrName, file, blocked, log⟩ := s
+  cases op <;> cases alive <;> cases blocked <;> cases file <;> simp [step, verdictOut, snap, writeFile]
 
 theorem step_alive (s : St) (op : Op) :
     (step s op).alive = (match op with | .create => true | .destroy => false | _ => s.alive) := by
-  obtain ⟨um, inst, alive, hdrName, file, log⟩ := s
-  cases op <;> cases alive <;> simp [step, writeFile]
+  obtain ⟨um, inst, alive, hdrName, file, blocked, log⟩ := s
+  cases op <;> cases alive <;> cases blocked <;> cases file <;> simp [step, writeFile]
 
 theorem step_hdrName (s : St) (op : Op) :
     (step s op).hdrName =
@@ -36,37 +36,56 @@ theorem step_hdrName (s : St) (op : Op) :
        | .setHeaderName n => if s.alive then n else s.hdrName
        | .create => if s.alive then s.hdrName else DEFHDR
        | _ => s.hdrName) := by
-  obtain ⟨um, inst, alive, hdrName, file, log⟩ := s
-  cases op <;> cases alive <;> simp [step, writeFile, DEFHDR]
+  obtain ⟨um, inst, alive, hdrName, file, blocked, log⟩ := s
+  cases op <;> cases alive <;> cases blocked <;> cases file <;> simp [step, writeFile, DEFHDR]
 
 theorem step_inst (s : St) (op : Op) :
     (step s op).inst = (match op with | .create => if s.alive then s.inst else s.inst + 1 | _ => s.inst) := by
-  obtain ⟨um, inst, alive, hdrName, file, log⟩ := s
-  cases op <;> cases alive <;> simp [step, writeFile]
+  obtain ⟨um, inst, alive, hdrName, file, blocked, log⟩ := s
+  cases op <;> cases alive <;> cases blocked <;> cases file <;> simp [step, writeFile]
+
+/-- `block` takes effect only when nothing is at the name; `unblock` always clears; the
+    destructor cannot remove a directory -/
+theorem step_blocked (s : St) (op : Op) :
+    (step s op).blocked =
+      (match op with
+       | .block => if s.blocked || s.file.isSome then s.blocked else true
+       | .unblock => false
+       | _ => s.blocked) := by
+  obtain ⟨um, inst, alive, hdrName, file, blocked, log⟩ := s
+  cases op <;> cases alive <;> cases blocked <;> cases file <;> simp [step, writeFile]
 
 theorem sortKeys_single (k : Bytes) : sortKeys [k] = [k] := rfl
 
+/-- the file after one operation; `updateFile()` (in `create`, `setData`) and `pre` leave it as it
+    is while the name is blocked; `destroy` removes it whatever happened before -/
 theorem step_file (s : St) (op : Op) :
     (step s op).file =
       (match op with
-       | .pre mode => if s.alive then s.file
+       | .pre mode => if s.alive || s.blocked then s.file
                       else some { mode := mode, keys := [lit ['j','u','n','k']], hasToken := false }
-       | .create => if s.alive then s.file else some (goodFile [TOKEN])
-       | .setData ks => if s.alive then some (goodFile (sortKeys (TOKEN :: ks))) else s.file
+       | .create => if s.alive || s.blocked then s.file else some (goodFile [TOKEN])
+       | .setData ks => if s.alive && !s.blocked then some (goodFile (sortKeys (TOKEN :: ks))) else s.file
        | .destroy => if s.alive then none else s.file
        | _ => s.file) := by
-  obtain ⟨um, inst, alive, hdrName, file, log⟩ := s
-  cases op <;> cases alive <;>
+  obtain ⟨um, inst, alive, hdrName, file, blocked, log⟩ := s
+  cases op <;> cases alive <;> cases blocked <;> cases file <;>
     simp [step, writeFile, goodFile, sortKeys_token_filter, sortKeys_single]
 
-theorem snap_good (s : St) (keys : List Bytes) (h : s.file = some (goodFile keys)) :
+theorem snap_good (s : St) (keys : List Bytes) (hb : s.blocked = false) (h : s.file = some (goodFile keys)) :
     snap s = Obs.misc 10 (1 :: 6 :: 0 :: 0 :: 1 :: joinWith [44] keys) := by
-  simp [snap, h, goodFile]
+  simp [snap, h, hb, goodFile]
 
 theorem snap_misc (s : St) : ∃ d, snap s = Obs.misc 10 d := by
-  unfold snap; split <;> exact ⟨_, rfl⟩
+  unfold snap; split
+  · exact ⟨_, rfl⟩
+  · split <;> exact ⟨_, rfl⟩
 
 theorem snap_none (s : St) (h : s.file = none) : snap s = Obs.misc 10 [] := by
+  simp [snap, h]
+
+/-- a directory at the name is reported as "no file" -/
+theorem snap_blocked (s : St) (h : s.blocked = true) : snap s = Obs.misc 10 [] := by
   simp [snap, h]
 
 /-! ### runs -/
@@ -93,27 +112,60 @@ theorem run_log (ops : List Op) : (run ops).log = emit {} ops := by
 
 /-! ### the state invariant -/
 
-/-- while an instance is alive the file exists, is owner-only, and holds `token` plus data keys -/
+/-- a directory and a file cannot be at the name together; while an instance is alive, a file at
+    the name is the advertised one: owner-only, holding `token` plus data keys (it is there unless
+    every `updateFile()` of this instance so far failed to open it: see `Agree.file`) -/
 def LInv (s : St) : Prop :=
-  s.alive = true → ∃ ks, s.file = some (goodFile (sortKeys (TOKEN :: ks)))
+  (s.blocked = true → s.file = none) ∧
+  (s.alive = true → s.file = none ∨ ∃ ks, s.file = some (goodFile (sortKeys (TOKEN :: ks))))
 
-theorem LInv_init : LInv {} := by intro h; cases h
+theorem LInv_init : LInv {} := ⟨(by intro h; cases h), (by intro h; cases h)⟩
 
 theorem LInv_step {s : St} (h : LInv s) (op : Op) : LInv (step s op) := by
-  intro ha
-  rw [step_alive] at ha
-  rw [step_file]
-  cases op with
-  | create =>
-    cases hs : s.alive with
-    | true => simpa [hs] using h hs
-    | false => exact ⟨[], by simp [sortKeys, insertKey]⟩
-  | setData ks => simp only at ha; simp only [ha, if_true]; exact ⟨ks, rfl⟩
-  | destroy => cases ha
-  | pre m => simp only at ha; simpa [ha] using h ha
-  | umask m => exact h ha
-  | setHeaderName n => exact h ha
-  | req hdr => exact h ha
+  obtain ⟨hb, hg⟩ := h
+  constructor
+  · intro hb'
+    rw [step_blocked] at hb'
+    rw [step_file]
+    cases op with
+    | block =>
+      cases hsb : s.blocked with
+      | true => exact hb hsb
+      | false =>
+        cases hf : s.file with
+        | none => rfl
+        | some f => simp [hsb, hf] at hb'
+    | unblock => cases hb'
+    | create => simp only at hb'; simp [hb', hb hb']
+    | setData ks => simp only at hb'; simp [hb', hb hb']
+    | destroy => simp only at hb'; simp [hb hb']
+    | pre m => simp only at hb'; simp [hb', hb hb']
+    | umask m => exact hb hb'
+    | setHeaderName n => exact hb hb'
+    | req hdr => exact hb hb'
+  · intro ha
+    rw [step_alive] at ha
+    rw [step_file]
+    cases op with
+    | create =>
+      cases hs : s.alive with
+      | true => simpa [hs] using hg hs
+      | false =>
+        cases hsb : s.blocked with
+        | true => left; simp [hb hsb]
+        | false => right; exact ⟨[], by simp [sortKeys, insertKey]⟩
+    | setData ks =>
+      simp only at ha
+      cases hsb : s.blocked with
+      | true => simpa [ha, hsb] using hg ha
+      | false => right; exact ⟨ks, by simp [ha]⟩
+    | destroy => cases ha
+    | pre m => simp only at ha; simpa [ha] using hg ha
+    | umask m => exact hg ha
+    | setHeaderName n => exact hg ha
+    | req hdr => exact hg ha
+    | block => exact hg ha
+    | unblock => exact hg ha
 
 theorem LInv_foldl {s : St} (h : LInv s) (ops : List Op) : LInv (ops.foldl step s) := by
   induction ops generalizing s with
@@ -122,20 +174,28 @@ theorem LInv_foldl {s : St} (h : LInv s) (ops : List Op) : LInv (ops.foldl step 
 
 /-! ### history specification -/
 
-/-- what the API history says the middleware's configuration is -/
+/-- what the API history (and the history of the obstacle) says the configuration is -/
 structure Ghost where
   alive   : Bool := false
   hdr     : Bytes := DEFHDR           -- argument of the last `setHeaderName` since the last `create`
   data    : List Bytes := []          -- keys of the last `setData` since the last `create`
-  removed : Bool := false             -- an instance was destroyed and nothing recreated the file since
+  removed : Bool := false             -- an instance was destroyed; no `create` and no effective `pre` since
+  blocked : Bool := false             -- a directory is at the name: `LocalFile::open()` fails
+  present : Bool := false             -- a file is at the name: written by `pre` or by an `updateFile()`
+                                      -- that could open it, and not removed by a destructor since
 deriving Repr, DecidableEq
 
 def gstep (g : Ghost) : Op → Ghost
-  | .create => if g.alive then g else { alive := true, hdr := DEFHDR, data := [], removed := false }
-  | .setData ks => if g.alive then { g with data := ks } else g
+  | .create =>
+    if g.alive then g
+    else { g with alive := true, hdr := DEFHDR, data := [],
+                  removed := false, present := g.present || !g.blocked }
+  | .setData ks => if g.alive then { g with data := ks, present := g.present || !g.blocked } else g
   | .setHeaderName n => if g.alive then { g with hdr := n } else g
-  | .destroy => if g.alive then { g with alive := false, removed := true } else g
-  | .pre _ => if g.alive then g else { g with removed := false }
+  | .destroy => if g.alive then { g with alive := false, removed := true, present := false } else g
+  | .pre _ => if g.alive || g.blocked then g else { g with removed := false, present := true }
+  | .block => if g.blocked || g.present then g else { g with blocked := true }
+  | .unblock => { g with blocked := false }
   | _ => g
 
 def ghost (ops : List Op) : Ghost := ops.foldl gstep {}
@@ -143,20 +203,23 @@ def ghost (ops : List Op) : Ghost := ops.foldl gstep {}
 /-- the model state agrees with the history specification -/
 structure Agree (s : St) (g : Ghost) : Prop where
   alive   : s.alive = g.alive
+  blocked : s.blocked = g.blocked
+  present : s.file.isSome = g.present
+  excl    : g.blocked = true → g.present = false
   hdr     : g.alive = true → s.hdrName = g.hdr
-  file    : g.alive = true → s.file = some (goodFile (sortKeys (TOKEN :: g.data)))
+  file    : g.alive = true → g.present = true → s.file = some (goodFile (sortKeys (TOKEN :: g.data)))
   removed : g.removed = true → s.file = none ∧ g.alive = false
 
 theorem Agree_init : Agree {} {} :=
-  ⟨rfl, (by intro h; cases h), (by intro h; cases h), (by intro h; cases h)⟩
+  ⟨rfl, rfl, rfl, (by intro h; cases h), (by intro h; cases h), (by intro h; cases h), (by intro h; cases h)⟩
 
 theorem Agree_step {s : St} {g : Ghost} (h : Agree s g) (op : Op) : Agree (step s op) (gstep g op) := by
-  obtain ⟨ha, hh, hf, hr⟩ := h
-  obtain ⟨ga, gh, gd, gr⟩ := g
-  simp only at ha hh hf hr
-  refine ⟨?_, ?_, ?_, ?_⟩
-  all_goals simp only [step_alive, step_hdrName, step_file]
-  all_goals cases op <;> cases ga <;> simp_all [gstep, sortKeys, insertKey]
+  obtain ⟨ha, hb, hp, hx, hh, hf, hr⟩ := h
+  obtain ⟨ga, gh, gd, gr, gb, gp⟩ := g
+  simp only at ha hb hp hx hh hf hr
+  refine ⟨?_, ?_, ?_, ?_, ?_, ?_, ?_⟩
+  all_goals (try simp only [step_alive, step_hdrName, step_file, step_blocked])
+  all_goals cases op <;> cases ga <;> cases gb <;> cases gp <;> simp_all [gstep, sortKeys, insertKey]
 
 theorem Agree_run (ops : List Op) : Agree (run ops) (ghost ops) := by
   suffices ∀ (ops : List Op) (s : St) (g : Ghost), Agree s g → Agree (ops.foldl step s) (ops.foldl gstep g) from
@@ -178,42 +241,51 @@ def lastHdr (h : Bytes) : List Op → Bytes
   | .setHeaderName n :: ops => lastHdr n ops
   | _ :: ops => lastHdr h ops
 
-theorem gstep_alive_tail (g : Ghost) (ha : g.alive = true) (post : List Op)
-    (hp : ∀ op ∈ post, op ≠ Op.destroy) :
+/-- once the file of a live instance is there, it stays until `destroy` (`block` cannot take
+    effect: the name is occupied by the file) -/
+theorem gstep_alive_tail (g : Ghost) (ha : g.alive = true) (hp : g.present = true) (hb : g.blocked = false)
+    (post : List Op) (hpost : ∀ op ∈ post, op ≠ Op.destroy) :
     post.foldl gstep g =
-      { alive := true, hdr := lastHdr g.hdr post, data := lastData g.data post, removed := g.removed } := by
+      { alive := true, hdr := lastHdr g.hdr post, data := lastData g.data post,
+        removed := g.removed,
+        blocked := false, present := true } := by
   induction post generalizing g with
-  | nil => obtain ⟨ga, gh, gd, gr⟩ := g; simp only at ha; subst ha; rfl
+  | nil => obtain ⟨ga, gh, gd, gr, gb, gp⟩ := g; simp only at ha hp hb; subst ha hp hb; simp [lastHdr, lastData]
   | cons op post ih =>
-    have hp' : ∀ op ∈ post, op ≠ Op.destroy := fun o ho => hp o (List.mem_cons_of_mem _ ho)
-    have hop : op ≠ Op.destroy := hp op (by simp)
-    obtain ⟨ga, gh, gd, gr⟩ := g
-    simp only at ha; subst ha
+    have hp' : ∀ op ∈ post, op ≠ Op.destroy := fun o ho => hpost o (List.mem_cons_of_mem _ ho)
+    have hop : op ≠ Op.destroy := hpost op (by simp)
+    obtain ⟨ga, gh, gd, gr, gb, gp⟩ := g
+    simp only at ha hp hb; subst ha hp hb
     rw [List.foldl_cons]
     cases op with
     | destroy => exact absurd rfl hop
-    | create => rw [ih _ (by simp [gstep]) hp']; simp [gstep, lastHdr, lastData]
-    | setData ks => rw [ih _ (by simp [gstep]) hp']; simp [gstep, lastHdr, lastData]
-    | setHeaderName n => rw [ih _ (by simp [gstep]) hp']; simp [gstep, lastHdr, lastData]
-    | pre m => rw [ih _ (by simp [gstep]) hp']; simp [gstep, lastHdr, lastData]
-    | umask m => rw [ih _ (by simp [gstep]) hp']; simp [gstep, lastHdr, lastData]
-    | req hdr => rw [ih _ (by simp [gstep]) hp']; simp [gstep, lastHdr, lastData]
+    | create => rw [ih _ (by simp [gstep]) (by simp [gstep]) (by simp [gstep]) hp']; simp [gstep, lastHdr, lastData]
+    | setData ks => rw [ih _ (by simp [gstep]) (by simp [gstep]) (by simp [gstep]) hp']; simp [gstep, lastHdr, lastData]
+    | setHeaderName n => rw [ih _ (by simp [gstep]) (by simp [gstep]) (by simp [gstep]) hp']; simp [gstep, lastHdr, lastData]
+    | pre m => rw [ih _ (by simp [gstep]) (by simp [gstep]) (by simp [gstep]) hp']; simp [gstep, lastHdr, lastData]
+    | umask m => rw [ih _ (by simp [gstep]) (by simp [gstep]) (by simp [gstep]) hp']; simp [gstep, lastHdr, lastData]
+    | req hdr => rw [ih _ (by simp [gstep]) (by simp [gstep]) (by simp [gstep]) hp']; simp [gstep, lastHdr, lastData]
+    | block => rw [ih _ (by simp [gstep]) (by simp [gstep]) (by simp [gstep]) hp']; simp [gstep, lastHdr, lastData]
+    | unblock => rw [ih _ (by simp [gstep]) (by simp [gstep]) (by simp [gstep]) hp']; simp [gstep, lastHdr, lastData]
 
-theorem gstep_dead_tail (g : Ghost) (ha : g.alive = false) (post : List Op)
+/-- after a destructor ran, nothing but `create` / `pre` brings a file or an instance back
+    (`block` / `unblock` only move the obstacle) -/
+theorem gstep_dead_tail (g : Ghost) (ha : g.alive = false) (hr : g.removed = true) (post : List Op)
     (hp : ∀ op ∈ post, op ≠ Op.create ∧ ∀ m, op ≠ Op.pre m) :
-    post.foldl gstep g = g := by
-  induction post with
-  | nil => rfl
+    (post.foldl gstep g).alive = false ∧ (post.foldl gstep g).removed = true := by
+  induction post generalizing g with
+  | nil => exact ⟨ha, hr⟩
   | cons op post ih =>
     have hp' : ∀ op ∈ post, op ≠ Op.create ∧ ∀ m, op ≠ Op.pre m :=
       fun o ho => hp o (List.mem_cons_of_mem _ ho)
     have hop := hp op (by simp)
     rw [List.foldl_cons]
-    have : gstep g op = g := by
+    have : (gstep g op).alive = false ∧ (gstep g op).removed = true := by
       cases op with
       | create => exact absurd rfl hop.1
       | pre m => exact absurd rfl (hop.2 m)
-      | _ => simp [gstep, ha]
-    rw [this]; exact ih hp'
+      | block => simp only [gstep]; split <;> simp [ha, hr]
+      | _ => simp [gstep, ha, hr]
+    exact ih _ this.1 this.2 hp'
 
 end Qhttp.C17L
